@@ -264,8 +264,21 @@ func leanOp(t token.Token) (string, bool) {
 }
 
 // trExpr translates e; returns lean text and whether the result is a Bool (else numeric)
+// occOf, when set (tree translation), gives the 1-based occurrence number of a leaf expression among the expressions with
+// the same printed text in the translated block, in source order; a var named "<text>#<n>" then applies to that
+// occurrence only (`err != nil` after a re-assignment of err is another condition than the first one)
+var occOf func(e ast.Expr, txt string) int
+
 func trExpr(fset *token.FileSet, e ast.Expr, vars map[string][2]string, used map[string]bool) (string, bool, error) {
 	txt := printNode(fset, e)
+	if occOf != nil {
+		if n := occOf(e, txt); n > 0 {
+			if v, ok := vars[fmt.Sprintf("%s#%d", txt, n)]; ok {
+				used[txt] = true
+				return v[0], v[1] == "Bool", nil
+			}
+		}
+	}
 	if v, ok := vars[txt]; ok {
 		used[txt] = true
 		return v[0], v[1] == "Bool", nil
@@ -493,6 +506,7 @@ func translateTree(fi *fileInfo, fd *ast.FuncDecl, sp exprSpec) (string, error) 
 		r *ast.ReturnStmt
 	}
 	var rets []retT
+	var kinds []int // per exit: 1 return, 2 continue, 3 break, 4 marked effect
 	var leafDoc []string
 	var number func(n ast.Node, inLoop bool)
 	number = func(n ast.Node, inLoop bool) {
@@ -512,16 +526,23 @@ func translateTree(fi *fileInfo, fd *ast.FuncDecl, sp exprSpec) (string, error) 
 				}
 			case *ast.ReturnStmt:
 				leaf[x.Pos()] = len(leaf) + 1
+				kinds = append(kinds, 1)
 				rets = append(rets, retT{len(leaf), x})
 				leafDoc = append(leafDoc, fmt.Sprintf("%d = line %d `%s`", len(leaf), fi.fset.Position(x.Pos()).Line, strings.ReplaceAll(printNode(fi.fset, x), "-/", "- /")))
 			case *ast.BranchStmt:
 				if !inLoop && (x.Tok == token.CONTINUE || x.Tok == token.BREAK) {
 					leaf[x.Pos()] = len(leaf) + 1
+					if x.Tok == token.CONTINUE {
+						kinds = append(kinds, 2)
+					} else {
+						kinds = append(kinds, 3)
+					}
 					leafDoc = append(leafDoc, fmt.Sprintf("%d = line %d `%s`", len(leaf), fi.fset.Position(x.Pos()).Line, x.Tok.String()))
 				}
 			case *ast.ExprStmt, *ast.AssignStmt, *ast.IncDecStmt:
 				if st, ok := m.(ast.Stmt); ok && isMarked(st) {
 					leaf[st.Pos()] = len(leaf) + 1
+					kinds = append(kinds, 4)
 					leafDoc = append(leafDoc, fmt.Sprintf("%d = line %d reached `%s`", len(leaf), fi.fset.Position(st.Pos()).Line, strings.ReplaceAll(strings.SplitN(printNode(fi.fset, st), "\n", 2)[0], "-/", "- /")))
 				}
 			}
@@ -530,9 +551,35 @@ func translateTree(fi *fileInfo, fd *ast.FuncDecl, sp exprSpec) (string, error) 
 	}
 	number(block, false)
 	vars := map[string][2]string{}
+	indexed := map[string]bool{} // printed texts that have "#n" variants
 	for _, v := range sp.Vars {
 		vars[v[0]] = [2]string{v[1], v[2]}
+		if i := strings.LastIndex(v[0], "#"); i > 0 {
+			indexed[v[0][:i]] = true
+		}
 	}
+	occ := map[token.Pos]int{}
+	if len(indexed) > 0 {
+		count := map[string]int{}
+		ast.Inspect(block, func(m ast.Node) bool {
+			if e, ok := m.(ast.Expr); ok {
+				t := printNode(fi.fset, e)
+				if indexed[t] {
+					count[t]++
+					occ[e.Pos()] = count[t]
+					return false
+				}
+			}
+			return true
+		})
+	}
+	occOf = func(e ast.Expr, txt string) int {
+		if !indexed[txt] || !e.Pos().IsValid() {
+			return 0
+		}
+		return occ[e.Pos()]
+	}
+	defer func() { occOf = nil }()
 	used := map[string]bool{}
 	cond := func(e ast.Expr) (string, error) {
 		c, isBool, err := trExpr(fi.fset, e, vars, used)
@@ -658,6 +705,36 @@ func translateTree(fi *fileInfo, fd *ast.FuncDecl, sp exprSpec) (string, error) 
 	}
 	out := fmt.Sprintf("/-- %s : %s — decision tree; exits in source order: 0 = end of the block; %s -/\ndef %s%s : Nat :=\n  %s\n\n",
 		sp.File, where, strings.Join(leafDoc, "; "), sp.Lean, params, body)
+	// how each exit leaves the block
+	if len(kinds) > 0 {
+		var arms []string
+		for i, k := range kinds {
+			arms = append(arms, fmt.Sprintf("  | %d => %d", i+1, k))
+		}
+		out += fmt.Sprintf("/-- how each exit of `%s` leaves the block: 1 = return, 2 = continue, 3 = break, 4 = a marked effect was reached, 0 = end of the block -/\ndef %sKind (exit : Nat) : Nat :=\n  match exit with\n%s\n  | _ => 0\n\n", sp.Lean, sp.Lean, strings.Join(arms, "\n"))
+	}
+	// whether the i-th result of each return statement is the literal nil (for functions returning (value, error) …)
+	if len(rets) > 0 {
+		maxRes := 0
+		for _, rt := range rets {
+			if len(rt.r.Results) > maxRes {
+				maxRes = len(rt.r.Results)
+			}
+		}
+		for i := 0; i < maxRes && maxRes > 1; i++ {
+			var arms []string
+			for _, rt := range rets {
+				isNil := "false"
+				if i < len(rt.r.Results) {
+					if id, ok := rt.r.Results[i].(*ast.Ident); ok && id.Name == "nil" {
+						isNil = "true"
+					}
+				}
+				arms = append(arms, fmt.Sprintf("  | %d => %s", rt.n, isNil))
+			}
+			out += fmt.Sprintf("/-- whether result %d of the return statement at each exit of `%s` is the literal `nil` -/\ndef %sNil%d (exit : Nat) : Bool :=\n  match exit with\n%s\n  | _ => false\n\n", i+1, sp.Lean, sp.Lean, i+1, strings.Join(arms, "\n"))
+		}
+	}
 	// the value returned at each exit, when every return statement has one result and all of them translate to one type
 	if len(rets) > 0 {
 		var arms []string
